@@ -283,10 +283,17 @@ def scen_budget(g, name, typ):
     # variants: every child pending at first (the poll that fills / drains must stop on its budget
     # without an item), all ending at once (> B completions in one call), or a child that completes
     # exactly on the budget-th poll of a call
-    variant = r.choice(["mixed", "allpend", "allend", "boundary"])
+    variant = r.choice(["mixed", "allpend", "allend", "boundary", "sleepers"])
+    if variant == "sleepers" and typ not in ("FUB", "FOB", "FU", "FO", "MU", "MB", "JA", "TJA"):
+        variant = "allpend"
     bpos = r.choice([61, 61, 62, 60])
     def kfin(j, fins):
         """(pending steps, final) of the j-th child (1-based)"""
+        if variant == "sleepers":
+            # more than B children that stay Pending and are never woken: after the budget stop
+            # of the first polls the collection must fall silent (C14 with held > B), however
+            # often it is polled (held + 4 polls follow)
+            return 1, None
         if variant == "allpend":
             return r.choice([1, 2, 3]), r.choice(fins)
         if variant == "allend":
@@ -326,6 +333,10 @@ def scen_budget(g, name, typ):
             k, fin = kfin(j, [":E", ":E", ":I;:E", None] if typ == "MU" else [":R", ":R", None])
             L.append("push %d %s" % (nid, (clone if r.random() < 0.5 else quiet)(k, fin))); nid += 1
     nh = 0
+    if variant == "sleepers":
+        L += ["poll 1"] * (N + 4)
+        g.stats["types"][typ] = g.stats["types"].get(typ, 0) + 1
+        return _tail(L)
     for rnd in range(r.choice([3, 5, 8])):
         L.append("poll %d" % r.choice([1, 2, 3]))
         if r.random() < 0.5:
